@@ -283,6 +283,9 @@ func C30(e *simkern.Env) {
 						o.Substitute(stream, enc, strings.Join(kinds, "+"))
 					})
 					add("loss", 1, func() { o.Lose() })
+					if len(o.Data) > 1 {
+						add("transient-body-cut", 3, func() { o.TransientCut = 1 + tp.Draw(len(o.Data)) })
+					}
 					if c.sha != "" {
 						// in-place corruption is only decidable against a checksum
 						if len(o.Data) > 0 {
@@ -434,12 +437,12 @@ func init() {
 	Registry["C30"] = &Info{
 		Run:   C30,
 		Level: "exploration",
-		Rule:  "each run draws fault-free or fault-injecting, 1-3 concurrent cases and the retry budget; a case draws a schema (1-3 typed columns + pad, optional schema metadata), then either (own) a data batch with optional nulls / custom metadata and a compressible or incompressible (pseudo-random, 1.5 or 20 kB) pad column, a threshold around its buffer size and a compression setting, runs the real externalize against the simulated store and resolves the real pointer (or an old-style pointer without checksum), or (peer) stores a stream composed of data / log / pointer batches in any order, raw or zstd, and resolves a pointer to it with or without checksum; in fault-injecting runs the scheduler may hit the stored object between upload and any fetch attempt with bit rot, truncation, loss, a wrong Content-Encoding header, or substitution by another composed stream; distinct = distinct schedule+fault fingerprint; non-trivial = at least one pointer was resolved",
+		Rule:  "each run draws fault-free or fault-injecting, 1-3 concurrent cases and the retry budget; a case draws a schema (1-3 typed columns + pad, optional schema metadata), then either (own) a data batch with optional nulls / custom metadata and a compressible or incompressible (pseudo-random, 1.5 or 20 kB) pad column, a threshold around its buffer size and a compression setting, runs the real externalize against the simulated store and resolves the real pointer (or an old-style pointer without checksum), or (peer) stores a stream composed of data / log / pointer batches in any order, raw or zstd, and resolves a pointer to it with or without checksum; in fault-injecting runs the scheduler may hit the stored object between upload and any fetch attempt with bit rot, truncation, loss, a wrong Content-Encoding header, substitution by another composed stream, or a transient delivery fault (one answer breaks off mid-body; the next attempt gets the intact object); distinct = distinct schedule+fault fingerprint; non-trivial = at least one pointer was resolved",
 		Real:  []string{"vgirpc.MaybeExternalizeBatch/externalizeBatchCtx", "vgirpc.ResolveExternalLocation, fetchExternalData, decompressZstdCapped, batchMetadata", "net/http.Client (redirect/response handling)", "arrow-go IPC, klauspost zstd", "testing/synctest clock (retry delays)"},
 		Stub:  []string{"object store behind ExternalStorage (fetchw.Store)", "origin behind http.RoundTripper (fetchw.Origin)", "peer uploader / pointer wire (arrow-go IPC in the harness)"},
 		Quick: 800, Thorough: 40000,
 		Warm:       warmFetch,
-		FaultKinds: []string{"bit-rot", "truncation", "loss", "substitution", "encoding-header"},
+		FaultKinds: []string{"bit-rot", "truncation", "loss", "substitution", "encoding-header", "transient-body-cut"},
 		Assumptions: []string{
 			"custom metadata = the batch's own IPC custom metadata (arrow.RecordBatchWithMetadata); the second return value of ResolveExternalLocation (fetch_ms/source) is not compared",
 			"whether a batch near the threshold is externalized at all is not asserted; only externalized batches are judged",
